@@ -136,7 +136,12 @@ size_t strcspn(const char *s, const char *reject)
 }
 void *memchr(const void *s, int c, size_t n)
 {
-    __CPROVER_assert(s == (const void *)g_email && c == '@' && n == g_len, "memchr is modelled for (address, '@', length) only");
+    if (c == ':') {   /* first ':' within the n bytes after the opening bracket */
+        __CPROVER_assert(g_last_at >= 0 && s == (const void *)(g_email + DOM + 1) && (long)n <= (long)g_len - (DOM + 1), "memchr(':') is modelled on the bytes after the opening bracket only");
+        rec_strchr_colon_calls++;
+        return (g_first_colon >= 0 && g_first_colon < DOM + 1 + (long)n) ? (void *)((char *)s + (g_first_colon - (DOM + 1))) : (void *)0;
+    }
+    __CPROVER_assert(s == (const void *)g_email && c == '@' && n == g_len, "memchr is modelled for (address, '@', length) and (literal content, ':', n) only");
     return g_first_at < 0 ? (void *)0 : (void *)((char *)s + g_first_at);
 }
 char *strchr(const char *s, int c)
